@@ -644,6 +644,9 @@ func (pc *propCheck) replayTestGenK(known bool) replayResult {
 	files["f_big.go"] = big.String()
 	// a nested directory is another package: its functions are "any other function"
 	files["sub/n.go"] = "package sub\n\nfunc testNested() bool {\n\treturn true\n}\n\nfunc failing_testNestedToo() bool {\n\treturn false\n}\n"
+	// comment and string text that looks like the start of a block comment: the functions after it are
+	// still top-level functions of the package
+	files["g_text.go"] = "package semantics\n\n// see internal/examples/*.go for the sources\nfunc testAfterGlob() bool {\n\treturn glob() == \"dir/*\"\n}\n\nfunc glob() string {\n\treturn \"dir/*\"\n}\n\nfunc failing_testAfterText() bool {\n\treturn false\n}\n"
 	for n, c := range files {
 		os.MkdirAll(filepath.Dir(filepath.Join(dir, n)), 0o755)
 		os.WriteFile(filepath.Join(dir, n), []byte(c), 0o644)
@@ -681,7 +684,7 @@ func (pc *propCheck) replayTestGenK(known bool) replayResult {
 		sort.Strings(ks)
 		return ks
 	}
-	want := append([]string{"testAlpha", "testBeta"}, bigNames...)
+	want := append([]string{"testAlpha", "testBeta", "testAfterGlob", "testAfterText"}, bigNames...)
 	sort.Strings(want)
 	if fmt.Sprint(keys(goTests)) != fmt.Sprint(keys(coqTests)) {
 		r.Confirmed = true
